@@ -8,12 +8,12 @@ import TraitsVerif.Lemmas.DelegNotify
 namespace TraitsVerif.Model.Deleg.Witness
 open TraitsVerif TraitsVerif.Model.Deleg
 
-def idEnv : Env := ⟨fun _ _ v => .ok v⟩
+def idEnv : Env := { validate := fun _ _ v => .ok v }
 def nx : Name := ['x']
 
 def clsD : Cls := ⟨none, [(nx, .defer (mkDelegate [] true))]⟩
 def clsP : Cls := ⟨none, [(nx, .defer (mkDelegate [] false))]⟩
-def clsT : Cls := ⟨none, [(nx, .plain 0 3)]⟩
+def clsT : Cls := ⟨none, [(nx, .plain 0 3 .equality)]⟩
 
 /-- F20: `o0.x = DelegatesTo` → `o1.x = PrototypedFrom` → `o2.x` typed; o1 holds the local value 7.
 Corpus case `D-P-T … sw 1 2;sw 0 1;st 1 x 7;st 0 x 9;rd 0 x`. -/
@@ -32,7 +32,7 @@ def starPool : Pool :=
   runPool idEnv 0
     (mkPool [⟨some ['a', '_'], [(nx, .defer (mkDelegate ['*'] true))]⟩,
              ⟨some ['b', '_'], [(['a', '_', 'x'], .defer (mkDelegate ['*'] true))]⟩,
-             ⟨none, [(['a', '_', 'a', '_', 'x'], .plain 0 1), (['b', '_', 'a', '_', 'x'], .plain 0 2)]⟩])
+             ⟨none, [(['a', '_', 'a', '_', 'x'], .plain 0 1 .equality), (['b', '_', 'a', '_', 'x'], .plain 0 2 .equality)]⟩])
     [.swap 1 (some 2), .swap 0 (some 1)]
 
 theorem clsD_ok : ClsOK clsD :=
@@ -66,8 +66,8 @@ def naax : Name := ['a', '_', 'a', '_', 'x']
 def nbax : Name := ['b', '_', 'a', '_', 'x']
 def clsA : Cls := ⟨some ['a', '_'], [(nx, .defer (mkDelegate ['*'] false))]⟩
 def clsB : Cls := ⟨some ['b', '_'], [(nax, .defer (mkDelegate ['*'] false))]⟩
-def clsC : Cls := ⟨none, [(naax, .plain 0 1), (nbax, .defer (mkDelegate [] false))]⟩
-def clsE : Cls := ⟨none, [(nbax, .plain 1 2)]⟩
+def clsC : Cls := ⟨none, [(naax, .plain 0 1 .equality), (nbax, .defer (mkDelegate [] false))]⟩
+def clsE : Cls := ⟨none, [(nbax, .plain 1 2 .equality)]⟩
 
 def deepClasses : List Cls := [clsA, clsB, clsC, clsE]
 
